@@ -44,6 +44,8 @@ class Gen:
         self.focus = None
         self.p_focus = rng.choice([0.5, 0.7, 0.9])
         self.fault_kinds = [] if rng.random() < 0.5 else rng.sample(FAULT_KINDS, rng.randint(1, 3))
+        if "cb" in self.fault_kinds and not ({"User", "Kernel"} & set(self.recipes)):
+            self.recipes.append(rng.choice(["User", "Kernel"]))  # F1 needs a party with a callback
         self.fault_rate = rng.choice([0.1, 0.2, 0.33])
         self.faults_left = 3
         self.flip_settings = rng.random() < 0.7
